@@ -296,6 +296,17 @@ def monStep (m : Mon) (toks : List String) (o : Obs) : Mon × Option String :=
           | _, _ => some s!"C01: unparsable result {e}"
         else none
       | _ => none)
+    <|> (o.f.findSome? fun e =>
+      match e.splitOn ":" with
+      | [w, r] => if (parseCallNo w).isSome && r == "panic" then some s!"C01: call {w} panicked (retire called twice / completed twice)" else none
+      | _ => none)
+    <|> (if o.done then
+          (List.range m.ncalls).findSome? fun k =>
+            let w := s!"c{k + 1}"
+            if (fin? o.f w).isNone && !(o.parkedL.any fun lbl => lbl.endsWith (":" ++ w)) then
+              some s!"C01: call {w} is still blocked in Await although the connection has terminated (done closed)"
+            else none
+        else none)
     <|> (m.startedLate.findSome? fun n =>
       match fin? o.f s!"c{n}" with
       | some r => if r == "closed" then none else some s!"C01: call c{n} started after termination ended with {r}, not with a closed-connection error"
